@@ -225,6 +225,12 @@ func (d *dhcpRun) history() {
 		// own MAC, a boot loader and the installed system): same chaddr, another client identifier - a different client
 		cls = append(cls, &dclient{mac: dhcpClients[1], id: []byte{0, 'v', 'm', '-', 'b'}})
 	}
+	if d.idx%7 == 3 { // (7: the net goes by idx%4, the mode by idx/3%3)
+		// client 0's device seen under a second identity: once without a client identifier (keyed by its hardware address) and
+		// once as 01+MAC (another operating system on the same machine) - two clients by RFC 2131 4.2
+		cls = append(cls, &dclient{mac: dhcpClients[0], id: append([]byte{1}, dhcpClients[0][:]...)})
+		c.Obs("histories_with_one_device_under_two_identities", 1)
+	}
 	time.Sleep(3 * time.Second)
 	synctest.Wait()
 	rec.Take()
@@ -263,7 +269,7 @@ func (d *dhcpRun) history() {
 	}
 	for step, o := range d.ops {
 		seeCaps()
-		cl := cls[o.C%len(cls)]
+		cl := cls[(o.C%len(cls)+len(cls))%len(cls)] // -1: the client added last
 		// "the client's capture state at that moment" is what the session reports: the flag lives in the MAC entry and is
 		// dropped with it when the MAC's last host is re-bound or purged (DESIGN Corrections)
 		cl.captured = s.IsCaptured(net.HardwareAddr(cl.mac[:]))
@@ -800,7 +806,11 @@ func runDHCP(c *wk.Ctx) {
 			cl := r.Intn(3)
 			ack := []dop{{K: "disc", C: cl}, {K: "sel", C: cl}}
 			age := dop{K: "adv", D: 2*time.Hour + time.Minute}
-			switch r.Intn(6) {
+			switch r.Intn(7) {
+			case 6:
+				// client 0 holds a lease, the rest of the pool fills up with other stations, then the last client (on some
+				// histories client 0's device under its other identity) asks while the pool is exhausted, twice, and selects
+				prefix = []dop{{K: "disc", C: 0}, {K: "sel", C: 0}, {K: "crowd", C: 0, P: 0}, {K: "disc", C: -1}, {K: "disc", C: -1}, {K: "sel", C: -1}, {K: "reboot", C: 0}, {K: "renew", C: 0}}
 			case 4:
 				// two clients are offered the same address (an offer reserves nothing), one takes it, goes back to DISCOVER,
 				// the other takes it on its old offer, the first asks for it again
